@@ -21,8 +21,10 @@ pub struct Case {
     pub seed: u64,
 }
 
-const SHAPES: [(u16, u16); 14] =
-    [(3, 2), (3, 3), (4, 2), (4, 3), (4, 4), (5, 2), (5, 3), (5, 4), (5, 5), (6, 2), (6, 4), (6, 6), (2, 2), (6, 3)];
+const SHAPES: [(u16, u16); 18] =
+    [(3, 2), (3, 3), (4, 2), (4, 3), (4, 4), (5, 2), (5, 3), (5, 4), (5, 5), (6, 2), (6, 4), (6, 6), (2, 2), (6, 3), (10, 2), (12, 5), (17, 3), (20, 2)];
+/// shapes from this index on are LARGE groups: one sampled receiver, senders {first, middle, second-to-last, last}
+const LARGE_FROM: u32 = 14;
 
 impl Property for C08 {
     type Case = Case;
@@ -33,7 +35,8 @@ impl Property for C08 {
         "fault_enumeration"
     }
     fn rule(&self) -> String {
-        "per generated honest DKG transcript (suite, n in 2..6, every t, identifier style, seeds; a second transcript of the same \
+        "per generated honest DKG transcript (suite, n in 2..6 with every t - plus the large groups (10,2), (12,5), (17,3), (20,2) with one sampled \
+         receiver and the senders at positions first / middle / second-to-last / last -, identifier style, seeds; a second transcript of the same \
          participants supplies valid-but-foreign material) EVERY (receiver, sender) pair x EVERY fault of the catalogue is injected alone: \
          round one: proof R replaced/shifted, proof z +1/-1/random, proof recomputed for another identifier, proof from the sender's \
          other run, EACH commitment coefficient k=0..t-1 replaced, commitment truncated/extended, another sender's package in this slot, \
@@ -52,10 +55,10 @@ impl Property for C08 {
     }
     fn plan(&self, suite: SuiteId, tier: Tier) -> Vec<(u32, u32)> {
         match (tier, suite.slow()) {
-            (Tier::Quick, false) => (0..14).map(|s| (s, 3)).collect(),
-            (Tier::Quick, true) => vec![(0, 1), (1, 1), (2, 1), (3, 1), (4, 1), (12, 1)],
-            (Tier::Thorough, false) => (0..14).map(|s| (s, 60)).collect(),
-            (Tier::Thorough, true) => (0..14).map(|s| (s, 6)).collect(),
+            (Tier::Quick, false) => (0..18).map(|s| (s, if s < LARGE_FROM { 3 } else { 1 })).collect(),
+            (Tier::Quick, true) => vec![(0, 1), (1, 1), (2, 1), (3, 1), (4, 1), (12, 1), (14, 1)],
+            (Tier::Thorough, false) => (0..18).map(|s| (s, if s < LARGE_FROM { 60 } else { 12 })).collect(),
+            (Tier::Thorough, true) => (0..16).map(|s| (s, if s < LARGE_FROM { 6 } else { 1 })).collect(),
         }
     }
     fn chunk(&self, _suite: SuiteId) -> u32 {
@@ -77,7 +80,7 @@ impl Property for C08 {
             "r1:proof-R-random", "r1:proof-z+1", "r1:proof-for-other-identifier", "r1:proof-from-other-run", "r1:coefficient-0", "r1:coefficient-top",
             "r1:truncate", "r1:extend", "r1:other-senders-package", "r1:package-from-other-run", "r1:filed-under-own-id", "r1:filed-under-unknown-id",
             "r1:missing", "r1:surplus", "r2:share+1", "r2:share-zero", "r2:share-for-other-recipient", "r2:share-from-other-run",
-            "r2:share-of-other-sender", "r2:filed-under-own-id", "r2:filed-under-unknown-id", "r2:missing", "r2:surplus", "r1:own-package-echoed", "r1:own-package-replaces-sender", "r2:own-share-echoed", "sender=last", "receiver=last",
+            "r2:share-of-other-sender", "r2:filed-under-own-id", "r2:filed-under-unknown-id", "r2:missing", "r2:surplus", "r1:own-package-echoed", "r1:own-package-replaces-sender", "r2:own-share-echoed", "large-group", "sender=last", "receiver=last",
         ]
         .iter()
         .map(|s| (s.to_string(), m))
@@ -111,7 +114,7 @@ fn with_proof<C: Suite>(p: &round1::Package<C>, r: El<C>, z: Sc<C>) -> round1::P
 }
 
 fn check<C: Suite>(case: &Case, ctx: &mut Ctx) -> CheckResult {
-    let shape = Shape { n: case.shape.n.clamp(2, 8), t: case.shape.t.clamp(2, case.shape.n.clamp(2, 8)) };
+    let shape = Shape { n: case.shape.n.clamp(2, 24), t: case.shape.t.clamp(2, case.shape.n.clamp(2, 24)) };
     let (n, t) = (shape.n as usize, shape.t as usize);
     let idv = {
         let mut v = make_ids::<C>(case.ids, n);
@@ -125,7 +128,25 @@ fn check<C: Suite>(case: &Case, ctx: &mut Ctx) -> CheckResult {
     // a valid round-one package made by `unknown` itself (for the surplus fault)
     let (_, unknown_pkg) = dkg::part1::<C, _>(unknown, shape.n, shape.t, Tape::random(rng.next())).map_err(|e| inconclusive(format!("part1 for surplus: {e:?}")))?;
 
+    // large groups: one sampled receiver and four sender positions; small groups: every (receiver, sender) pair
+    let large = n > 8;
+    let r_pick = (case.seed >> 24) as usize % n;
+    let s_picks: Vec<usize> = if large {
+        let v: Vec<usize> = (0..n).filter(|i| *i != r_pick).collect();
+        let l = v.len();
+        let mut w = vec![v[0], v[l / 2], v[l - 2], v[l - 1]];
+        w.dedup();
+        w
+    } else {
+        Vec::new()
+    };
+    if large {
+        ctx.label("large-group");
+    }
     for (ri, r) in idv.iter().enumerate() {
+        if large && ri != r_pick {
+            continue;
+        }
         let (r1_honest, r2_honest) = dkg_inputs_for(&a, r);
         // control: the unmodified inputs succeed
         {
@@ -135,7 +156,7 @@ fn check<C: Suite>(case: &Case, ctx: &mut Ctx) -> CheckResult {
             ensure!(ctx, p3.is_ok(), "C08/honest-run-fails", "part3 fails on honest input: {:?}", p3.as_ref().err());
         }
         for (si, s) in idv.iter().enumerate() {
-            if s == r {
+            if s == r || (large && !s_picks.contains(&si)) {
                 continue;
             }
             let pkg = &a.r1_pkg[s];
